@@ -29,7 +29,8 @@ RULE = (
     "section pointers past EOF, setting length past the block, 128-byte User-Agent without NUL before EOF, guard "
     "marker closer than 6144 bytes to the file start, guard area without terminator, bit flips in the guard TLV "
     "fields), plus a systematic corruption sweep (every PE header byte set to 00/FF/flipped; every single-bit flip "
-    "of the first 24 guard bytes and the 6 configuration bytes before them). Oracle: every entry point "
+    "of the first 24 guard bytes and the 6 configuration bytes before them) and an ArtifactKit record (alone and behind an "
+    "intact one) cut off at every byte. Oracle: every entry point "
     "returns or raises ValueError; anything else is bucketed by (exception type, innermost library frame) and the "
     "search continues (collect mode); a 20 s CPU-time watchdog (confirmed by a re-run) turns non-termination into a "
     "finding. Non-trivial: a structured-fault case (valid payload + >= 1 fault); distinct by the bytes fed."
